@@ -497,7 +497,7 @@ func main() {
 	r := vk.Start("C35")
 	r.Rule("each case: 1..3 shards + metachain, consensus sizes 1..7, an epoch of 5..300 rounds with per-shard block counts (every round / few / random / a stalled shard); every block has a consensus group of the configured size drawn from the shard's eligible validators, an online leader, signers, a fee and a developer fee; validators: eligible (some offline the whole epoch, some leaving-but-active), waiting entries, reward addresses unique / shared inside and across shards / delegation contracts on the metachain / other metachain addresses; random top-up stakes (none, few wei, up to 1e23); leader/protocol percentages, inflation, top-up factor and gradient from small grids; rewards creator V2 (2 of 3 cases, epoch above the staking-v2 epoch) or the legacy V1. One evaluation = one created epoch checked. Non-trivial = at least two reward transactions; distinct = (creator, shards, sorted feature set, number of miniblocks).")
 	r.Assume("inputs are consistent as the property demands: validator statistics are derived block by block (sum NumSelectedInSuccessBlocks == blocks x consensus size, leaders' accumulated fees == per-block leader share of fee - developer fee), the economics values come from the real ComputeEndOfEpochEconomics over the same epoch (inputs it rejects are counted, not checked)",
-		"the protocol sustainability percentage is positive and the epoch has something to distribute (with inflation 0 and no fees at all the creator emits a zero-valued protocol transaction; such epochs are counted, not checked)",
+		"the protocol sustainability input is positive: the protocol transaction is emitted unconditionally, so with nothing to distribute (inflation 0, no fees) or a total of a few wei (input rounds to 0, no dust) its value is 0; such epochs/transactions are counted, not checked",
 		"the legacy V1 creator runs with positive inflation only (it was replaced in year 1; with totals of a few wei its rounding compensation can push the protocol transaction below zero)",
 		"delegation contracts are accounts of a real AccountsDB holding the delegation marker key; the staking data provider is a stub fed with the generated top-ups")
 	r.MinShapes(40)
@@ -586,6 +586,14 @@ func runCase(r *vk.Run, c *vk.Case) {
 		return
 	}
 	r.Count("epochs created with "+creator, 1)
+	if sc.offline > 0 {
+		r.Count(creator+" epochs with validators offline the whole epoch", 1)
+	}
+	for _, f := range sc.features {
+		if f == "all-active" || f == "tiny-fees" || f == "no-inflation" || f == "stalled-shard" {
+			r.Count(creator+" epochs feature="+f, 1)
+		}
+	}
 
 	want := big.NewInt(0).Sub(total, mb1.DevFeesInEpoch)
 	sum := bi(0)
@@ -622,7 +630,11 @@ func runCase(r *vk.Run, c *vk.Case) {
 			nTx++
 			sum.Add(sum, rt.Value)
 			txDescr = append(txDescr, fmt.Sprintf("-> shard %s addr %x value %s", shardName(mb.ReceiverShardID), rt.RcvAddr[:4], rt.Value))
-			if rt.Value.Sign() <= 0 {
+			if rt.Value.Sign() == 0 && origProtocol.Sign() == 0 && bytes.Equal(rt.RcvAddr, sc.protocolAddr) {
+				// the protocol transaction is emitted unconditionally; with a total of a few wei its input
+				// (percentage of the total, rounded down) and the dust can both be zero. Outside the domain.
+				r.Count("zero-valued protocol tx with zero input and zero dust (not checked)", 1)
+			} else if rt.Value.Sign() <= 0 {
 				r.Violation(c.Idx, "non-positive-value creator="+creator, fmt.Sprintf("reward tx to %x has value %s", rt.RcvAddr, rt.Value), describe())
 			}
 			sh := coord.ComputeId(rt.RcvAddr)
